@@ -133,6 +133,20 @@ class tt_ismember_rows(Contract):
         c = S.int("c", 1)
         return dict(search=S.row_matrix("search", p, c), source=S.row_matrix("source", m, c))
 
+    def requires(self, S, a):
+        search, source = a["search"], a["source"]
+        yield "operands-are-matrices", search.ndim == 2 and source.ndim == 2
+        if search.ndim == 2 and source.ndim == 2:
+            yield "same-nonzero-column-count", S.And(S.eq(search.shape[1], source.shape[1]), S.ge(search.shape[1], 1))
+
+    def fresh_result(self, S, a):
+        p = a["search"].shape[0]
+        N.ensure_rows(S.ctx, a["search"])
+        N.ensure_rows(S.ctx, a["source"])
+        matched = Arr.fresh("matched", (p,), "bool")
+        results = Arr.fresh("location", (p,), "int")
+        return matched, results
+
     def ensures(self, S, a, ret):
         search, source = a["search"], a["source"]
         p, m = search.shape[0], source.shape[0]
